@@ -63,6 +63,7 @@ type RecEvent struct {
 	OldRel  int
 	NewRel  int
 	Locked  bool
+	Held    bool
 	Alive   bool
 	Mask    []int
 	Target  ecs.Entity
@@ -106,6 +107,7 @@ type Sess struct {
 	gex        [2]*gexState            // long-lived generic Exchange objects (C18)
 	gsingles   map[string]*gSingle     // long-lived generic Map[T] mappers (C18)
 	builders   map[string]*ecs.Builder // long-lived builders, by configuration
+	dropped    int                     // generic filters registered and dropped (C13)
 	resMappers map[string][]resAcc     // long-lived generic.Resource mappers (C20)
 	Res        *ResModel
 	ResIDs     []ecs.ResID
@@ -295,6 +297,23 @@ func (s *Sess) consume(q *ecs.Query, op *Op, out *Outcome, visit func(q *ecs.Que
 		if visit != nil {
 			visit(q)
 		}
+	}
+	// in a third of the cases a second, ordinary query is open while the returned query is consumed and closed,
+	// and is closed after it (reading while a batch result is inspected is legal; only the order of closing differs)
+	if op.Trav/20 == 1 && s.open == 0 && op.Probe == "" {
+		rq := s.W.Query(ecs.All())
+		rqOpen := true
+		if (op.Trav/10)%2 == 0 {
+			rqOpen = rq.Next()
+		}
+		s.open++
+		s.Cov.N["returned_query_closed_while_another_query_open"]++
+		defer func() {
+			s.open--
+			if rqOpen && s.W.IsLocked() {
+				rq.Close()
+			}
+		}()
 	}
 	switch op.Trav % 5 {
 	case 0:
